@@ -233,6 +233,8 @@ def swidth(e, cx):
     if t in ("in", "inrl", "inlist", "dynref"):
         return 1
     if t == "ps":
+        if "bit_f" in e:
+            return 1
         return e["hi"] - e["lo"] + 1
     if t == "size":
         return 32
@@ -349,6 +351,12 @@ def ev(e, cx, ctx=-1):
         f = cx.ftype(rp)
         w, s = scalar_type(cx.prog, f)
         v = cx.value(rp) & mask(w)
+        if "bit_f" in e:
+            # bit-select whose index is the current value of a (non-random) field
+            b = cx.value(cx.resolve(e["bit_f"]))
+            if b < 0 or b >= w:
+                raise RefError("bit index outside the field")
+            return ((v >> b) & 1, 1, False)
         n = e["hi"] - e["lo"] + 1
         return ((v >> e["lo"]) & mask(n), n, False)
     if t == "sum":
